@@ -59,9 +59,9 @@ import (
 )
 
 const (
-	callTimeout   = 6 * time.Second        // a call that has no answer by then has failed
-	latencyBound  = 2 * time.Second        // "well below its timeout"; two poll periods of connection.send
-	pollPeriod    = time.Second            // ticker of connection.send (Consts.clientSendTickMs)
+	callTimeout   = 6 * time.Second         // a call that has no answer by then has failed
+	latencyBound  = 2 * time.Second         // "well below its timeout"; two poll periods of connection.send
+	pollPeriod    = time.Second             // ticker of connection.send (Consts.clientSendTickMs)
 	settle        = 1300 * time.Millisecond // more than one poll period
 	observeWait   = 3 * time.Second
 	scenarioLimit = 40 * time.Second
@@ -77,7 +77,7 @@ type Scenario struct {
 	DelayMs      int    `json:"delay_ms"`       // between the client having observed the close and the next call
 	ClientIdleMs int    `json:"client_idle_ms"` // the client's IdleTimeout (0: one hour)
 	QueueLen     int    `json:"queue_len"`
-	Rounds       int    `json:"rounds"` // free/timely: close / call rounds
+	Rounds       int    `json:"rounds"`                 // free/timely: close / call rounds
 	HasCallback  bool   `json:"has_callback,omitempty"` // notify-linger: the client registered a push callback
 	LingerMs     int    `json:"linger_ms,omitempty"`    // notify-linger: the server closes the old connection this long after the notification
 	ExtraPush    bool   `json:"extra_push,omitempty"`   // notify-linger: an ordinary push precedes the notification
